@@ -152,6 +152,25 @@ def _run_task(job):
         except I.Unsupported as e:
             sub.undecide('%s%r' % (target, args), 'construct not modelled by the executor: %s' % e)
         V.discharge(sub.obligations, timeout_ms=timeout_ms, jobs=1)
+        if tier == 'thorough' and os.environ.get('VERIF_NO_SECOND') != '1':
+            # every obligation additionally on cvc5 and /usr/bin/z3 (a different build): all must agree
+            agree = 0
+            for i, o in enumerate(sub.obligations):
+                if o.backend == 'finite':
+                    continue
+                _, answers = V._second((i, o.smt2(True), 10000))
+                exp = {'valid': 'unsat', 'invalid': 'sat'}.get(o.result)
+                for solver, st in answers.items():
+                    if st in ('sat', 'unsat') and exp is not None:
+                        if st != exp:
+                            sub.errors.append('solver disagreement on %s: %s says %s, z3 said %s' % (o.name, solver, st, o.result))
+                        else:
+                            agree += 1
+            sub.crosscheck['solver_agreements'] = sub.crosscheck.get('solver_agreements', 0) + agree
+        first = next((o for o in sub.obligations if o.result == 'valid' and o.backend != 'finite' and o.expect == 'valid'), None)
+        if first is not None:
+            sub.samples.insert(0, {'obligation': first.name, 'backend': first.backend, 'result': first.result, 'ms': round(first.ms, 1),
+                                   'smt2_negated_goal': first.smt2(True)[:1500]})
         for o in sub.obligations:
             o.strip()
     except Exception as e:
@@ -186,6 +205,7 @@ def run_tasks(ctx, timeout_ms):
             ctx.trust(a)
         ctx.crosscheck['inputs'] += r['crosscheck']['inputs']
         ctx.crosscheck['disagreements'] += r['crosscheck']['disagreements']
+        ctx.crosscheck['solver_agreements'] = ctx.crosscheck.get('solver_agreements', 0) + r['crosscheck'].get('solver_agreements', 0)
         ctx.notes.extend(r['notes'])
         ctx.samples.extend(r['samples'][:2])
         for v in r['violations']:
@@ -364,6 +384,33 @@ def finish(ctx, level, n_disch, checker_cmd, explanation):
     return 0
 
 
+def selftest(ctx):
+    """thorough tier: the deliberate-breakage entries and the independently seeded changes that name this property are
+    applied to scratch copies (outside /repo and /verif, removed afterwards) and the quick check is run against each;
+    harmless refactors must stay green.  The outcome is evidence about the CHECK, it never changes the verdict on /repo."""
+    import glob
+    from concurrent.futures import ThreadPoolExecutor
+    sys.path.insert(0, os.path.join(VERIF, 'selftest'))
+    import mutate
+    ents = [e for e in json.load(open(os.path.join(VERIF, 'selftest', 'catalogue.json'))) if ctx.prop in e.get('props', [])]
+    for meta in sorted(glob.glob(os.path.join(VERIF, 'seeded', '*', 'meta.json'))):
+        m = json.load(open(meta))
+        if m.get('breaks') == ctx.prop:
+            ents.append({'name': 'seeded/' + os.path.basename(os.path.dirname(meta)), 'patch': os.path.join(os.path.dirname(meta), 'patch.diff'),
+                         'props': [ctx.prop]})
+    os.environ['VERIF_NO_SELFTEST'] = '1'
+    with ThreadPoolExecutor(max_workers=2) as ex:
+        res = list(ex.map(lambda e: mutate.run_one(ctx.prop, e), ents))
+    out = []
+    for e, r in zip(ents, res):
+        exp = e.get('expect', 'violation')
+        out.append({'change': e['name'], 'expected': exp, 'got': r['status'], 'first_line': (r.get('lines') or [''])[0][:160]})
+    ctx.selftest = {'entries': out, 'as_expected': sum(1 for o in out if o['expected'] == o['got']), 'total': len(out)}
+    miss = [o['change'] for o in out if o['expected'] != o['got']]
+    if miss:
+        ctx.notes.append('selftest: changes not classified as expected by this check: %s' % miss)
+
+
 def main(argv=None):
     ap = argparse.ArgumentParser()
     ap.add_argument('prop')
@@ -394,8 +441,10 @@ def main(argv=None):
         if len(ctx.obligations) == 0 and not args.no_proof and getattr(mod, 'EXPECT_OBLIGATIONS', True) and not ctx.undecided:
             ctx.errors.append('zero obligations generated')
         n = process_obligations(ctx, timeout)
-        if args.tier == 'thorough' and ctx.obligations and os.environ.get('VERIF_NO_SECOND') != '1':
-            agree, bad = V.crosscheck_solvers(ctx.obligations)
+        main_obls = [o for o in ctx.obligations if o.hyps is not None and o.backend != 'finite']
+        if args.tier == 'thorough' and main_obls and os.environ.get('VERIF_NO_SECOND') != '1':
+            agree, bad = V.crosscheck_solvers(main_obls)
+            ctx.crosscheck['solver_agreements'] = ctx.crosscheck.get('solver_agreements', 0) + agree
             ctx.notes.append('solver cross-check (cvc5, z3-4.8.12): %d agreeing answers, %d disagreements' % (agree, len(bad)))
             for b in bad:
                 ctx.errors.append('solver disagreement on %s: %s says %s, z3 said %s' % b)
@@ -404,6 +453,8 @@ def main(argv=None):
             run_tasks(ctx, timeout)
         if args.tier == 'thorough' and hasattr(mod, 'thorough_extra'):
             mod.thorough_extra(ctx)
+        if args.tier == 'thorough' and os.environ.get('VERIF_NO_SELFTEST') != '1' and REPO == '/repo':
+            selftest(ctx)
         return finish(ctx, mod.LEVEL, n, './check %s --tier %s' % (args.prop, args.tier), mod.explanation(ctx))
     except Exception as e:
         print('CHECK-ERROR: %r' % e)
